@@ -95,9 +95,39 @@ func subrequestProblems(logs []fake.LoggedRequest) string {
 	return ""
 }
 
-// missingVariables: every client variable a sub-request uses and the client sent a value for — null included —
-// accompanies that sub-request.
+// effectiveVariables: the values the client sent plus, for every variable it left out, the default its operation
+// declares (what C02 asks every sub-request that uses the variable to be accompanied by).
+func effectiveVariables(op gen.GenOp) map[string]interface{} {
+	out := map[string]interface{}{}
+	for k, v := range op.Variables {
+		out[k] = v
+	}
+	doc, err := parser.ParseQuery(&ast.Source{Input: op.Query})
+	if err != nil {
+		return out
+	}
+	o := doc.Operations.ForName(op.OperationName)
+	if o == nil && len(doc.Operations) == 1 {
+		o = doc.Operations[0]
+	}
+	if o == nil {
+		return out
+	}
+	for _, vd := range o.VariableDefinitions {
+		if _, sent := out[vd.Variable]; sent || vd.DefaultValue == nil {
+			continue
+		}
+		if v, err := vd.DefaultValue.Value(nil); err == nil {
+			out[vd.Variable] = v
+		}
+	}
+	return out
+}
+
+// missingVariables: every client variable a sub-request uses and the client sent a value for — null included — or
+// declared a default for accompanies that sub-request, with that value.
 func missingVariables(op gen.GenOp, logs []fake.LoggedRequest) string {
+	eff := effectiveVariables(op)
 	for _, l := range logs {
 		doc, err := parser.ParseQuery(&ast.Source{Input: l.Query})
 		if err != nil || len(doc.Operations) != 1 {
@@ -107,12 +137,13 @@ func missingVariables(op gen.GenOp, logs []fake.LoggedRequest) string {
 			if vd.Variable == "id" {
 				continue
 			}
-			if _, sent := op.Variables[vd.Variable]; !sent {
+			want, sent := eff[vd.Variable]
+			if !sent {
 				continue
 			}
-			if _, has := l.Variables[vd.Variable]; !has {
-				return fmt.Sprintf("sub-request to %s declares and uses $%s, the client sent %s for it, but the sub-request carries no value for it  --  %s  variables %s",
-					l.URL, vd.Variable, fake.CanonJSON(op.Variables[vd.Variable]), shortStr(l.Query, 200), fake.CanonJSON(l.Variables))
+			if got, has := l.Variables[vd.Variable]; !has || fake.CanonJSON(got) != fake.CanonJSON(want) {
+				return fmt.Sprintf("sub-request to %s declares and uses $%s, the client sent or declared %s for it, but the sub-request carries %v for it  --  %s  variables %s",
+					l.URL, vd.Variable, fake.CanonJSON(want), got, shortStr(l.Query, 200), fake.CanonJSON(l.Variables))
 			}
 		}
 	}
@@ -140,8 +171,8 @@ func stepsCoq(r *Rig, op gen.GenOp, logs []fake.LoggedRequest) []string {
 	}
 	var out []string
 	cv := "[]"
-	if op.Variables != nil {
-		cv = jsonObjToCoq(op.Variables)
+	if ev := effectiveVariables(op); len(ev) > 0 {
+		cv = jsonObjToCoq(ev) // what the client sent plus the declared defaults of what it left out
 	}
 	var walk func(s *planner.QueryPlanStep)
 	walk = func(s *planner.QueryPlanStep) {
